@@ -36,10 +36,13 @@ inline void print_byte(std::ostream& out, uint8_t x)
     }
     else
     {
+        std::ios_base::fmtflags flags = out.flags();
+        char fill = out.fill('0');
         out << "\\x";
         out.width(2);
-        out.fill('0');
         out << std::hex << unsigned(x);
+        out.flags(flags);
+        out.fill(fill);
     }
 }
 
